@@ -1,14 +1,18 @@
 // C26: wallet transactions conserve value and pay only the intended scripts.
 //
 // Op lines (one complete case each):
-//   sweep  <key> <walletPkh> <main|-> <dep,dep,...> <fee>
-//   redeem <key> <walletPkh> <main|-> <req,req,...|-> <fee> <shape d|0|1>
-//   move   <main|-> <targetPkh,...|-> <fee>
-//   msweep <key> <walletPkh> <moved|-> <main|-> <fee>
-//   shares <fee> <n>
+//
+//	sweep  <key> <walletPkh> <main|-> <dep,dep,...> <fee>
+//	redeem <key> <walletPkh> <main|-> <req,req,...|-> <fee> <shape d|0|1>
+//	move   <main|-> <targetPkh,...|-> <fee>
+//	msweep <key> <walletPkh> <moved|-> <main|-> <fee>
+//	shares <fee> <n>
+//
 // with  main/moved = id:idx:value:kind          (kind: w=P2WPKH p=P2PKH s=P2SH S=P2WSH x=unknown tx)
-//       dep        = id:idx:value:kind:flag     (flag: n=plain e=extra data b=bad depositor)
-//       req        = scriptHex:requested:treasury
+//
+//	dep        = id:idx:value:kind:flag     (flag: n=plain e=extra data b=bad depositor)
+//	req        = scriptHex:requested:treasury
+//
 // Obs: `in=<id:idx,...> out=<scriptHex:value,...>` read from the unsigned transaction inside
 // the returned TransactionBuilder, `err:<class>`, or `shares=a,b,c`.
 package main
